@@ -162,3 +162,30 @@ def _phosphate():
           name="formal_charge.phosphate_names")
 def phosphate_formal(atoms):
     return (atoms[1].formal_charge, atoms[2].formal_charge)
+
+
+# ---------------------------------------------------------------- atom ORDER: one PEOE cycle on the same molecule listed in two orders
+# Every cycle first computes all charge shifts from the charges of the previous cycle and only then applies them, so the
+# order in which atoms are listed cannot matter (beyond the order of floating-point additions).  Two copies of a chain
+# a-b-c with equal formal charges and types, listed [a, b, c] and [c, a, b]: atom by atom the same charge.
+def _chain(suffix, types):
+    a, b, c = "a" + suffix, "b" + suffix, "c" + suffix
+    return [Named(a, Obj("pdb2pqr.ligand.mol2:Mol2Atom", type=Const(types[0]), charge=Named("q" + a, Real), bonded_atoms=Items(Ref(b)),
+                         poly_terms=Const(None), equil_formal_charge=Const(None), delta_charge=Const(None), name=Str)),
+            Named(b, Obj("pdb2pqr.ligand.mol2:Mol2Atom", type=Const(types[1]), charge=Named("q" + b, Real), bonded_atoms=Items(Ref(a), Ref(c)),
+                         poly_terms=Const(None), equil_formal_charge=Const(None), delta_charge=Const(None), name=Str)),
+            Named(c, Obj("pdb2pqr.ligand.mol2:Mol2Atom", type=Const(types[2]), charge=Named("q" + c, Real), bonded_atoms=Items(Ref(b)),
+                         poly_terms=Const(None), equil_formal_charge=Const(None), delta_charge=Const(None), name=Str))]
+
+
+for _tag, _types in (("HCO", ("H", "C.3", "O.co2")), ("CNC", ("C.3", "N.4", "C.3"))):
+    _m1, _m2 = _chain("1", _types), _chain("2", _types)
+
+    @_harness("C16", params={"m1": Items(*_m1), "m2": Items(_m2[2], _m2[0], _m2[1])},
+              requires=["qa1 == qa2 and qb1 == qb2 and qc1 == qc2"],
+              ensures=["a1.charge == a2.charge and b1.charge == b2.charge and c1.charge == c2.charge"],
+              name=f"equilibrate.order_independent.{_tag}", native=False)
+    def two_orders(m1, m2):
+        equilibrate(m1, num_cycles=1)
+        equilibrate(m2, num_cycles=1)
+        return m1
